@@ -23,10 +23,41 @@ F_SETPIPE_SZ = 1031
 RUN_TIMEOUT = float(os.environ.get("VERIF_RUN_TIMEOUT", "120"))
 
 
-def scratch_root():
-    d = "/dev/shm/wsverif-%d" % os.getpid()
+RUN_MEM_LIMIT = int(float(os.environ.get("VERIF_RUN_MEM_GB", "3")) * (1 << 30))
+
+
+def top_scratch():
+    """Scratch root of the whole check (created by the top-level process, removed at its end)."""
+    d = os.environ.get("VERIF_SCRATCH")
+    if not d:
+        d = "/dev/shm/wsverif-%d" % os.getpid()
+        os.environ["VERIF_SCRATCH"] = d
     os.makedirs(d, exist_ok=True)
     return d
+
+
+def scratch_root():
+    """Scratch directory of the calling run child; removed by its parent when the run is over."""
+    d = os.path.join(top_scratch(), "r%d" % os.getpid())
+    os.makedirs(d, exist_ok=True)
+    return d
+
+
+def remove_scratch(path=None):
+    import shutil
+
+    shutil.rmtree(path or top_scratch(), ignore_errors=True)
+
+
+def _limit_memory():
+    """A run that runs away (e.g. a mutant corrupting the native work buffers) must not take the machine down."""
+    try:
+        import resource
+
+        resource.setrlimit(resource.RLIMIT_AS, (RUN_MEM_LIMIT + (2 << 30), RUN_MEM_LIMIT + (2 << 30)))
+        resource.setrlimit(resource.RLIMIT_DATA, (RUN_MEM_LIMIT, RUN_MEM_LIMIT))
+    except (ImportError, ValueError, OSError):
+        pass
 
 
 def _write_all(fd, data):
@@ -90,6 +121,7 @@ def run_in_child(fn, arg, timeout=None):
             except OSError:
                 pass
             faulthandler.dump_traceback_later(timeout, exit=True)
+            _limit_memory()
             try:
                 res = fn(arg)
             except BaseException as exc:  # harness failure, never a verdict
@@ -104,6 +136,7 @@ def run_in_child(fn, arg, timeout=None):
         finally:
             os._exit(code)
     os.close(w)
+    child_scratch = os.path.join(top_scratch(), "r%d" % pid)
     deadline = time.monotonic() + timeout + 10
     res = None
     buf = b""
@@ -134,6 +167,7 @@ def run_in_child(fn, arg, timeout=None):
             except OSError:
                 pass
         _, status = os.waitpid(pid, 0)
+        remove_scratch(child_scratch)
         return {"outcome": "harness", "error": f"HARNESS-TIMEOUT or crash (wait status {status})"}
     # reap; the child may still own helper processes in its group (reference server)
     try:
@@ -144,6 +178,7 @@ def run_in_child(fn, arg, timeout=None):
         os.killpg(pid, signal.SIGKILL)
     except OSError:
         pass
+    remove_scratch(child_scratch)
     return res
 
 
